@@ -13,8 +13,8 @@ ASSUME = [
 ]
 
 
-def gen(writes, ncb, atomic, timeout=900):
-    cfg = cfg_text("Spec", {"Writes": set(writes), "NCb": ncb, "Atomic": atomic, "TallyReset": False}, invariants=["EmitInv"])
+def gen(writes, ncb, atomic, timeout=900, epochs=1):
+    cfg = cfg_text("Spec", {"Writes": set(writes), "NCb": ncb, "Atomic": atomic, "TallyReset": False, "Epochs": epochs, "StaleTally": False}, invariants=["EmitInv"])
     code, out = run_tlc("Approval.tla", cfg, timeout=timeout, workers=1, heap="8g")
     if not tlc_ok(code, out):
         raise Inconclusive("Approval schedule enumeration failed:\n" + out[-2000:])
@@ -27,7 +27,7 @@ def execute(prop, tier, seed, sc, topo, disconnect=False):
     states = 0
     # the contract: atomic verdicts and timeouts give every write exactly one, correct outcome
     for writes, ncb in [(["w1"], 1), (["w1"], 2), (["w1"], 3), (["w1", "w2"], 1), (["w1", "w2"], 2)]:
-        code, out = run_tlc("Approval.tla", cfg_text("Spec", {"Writes": set(writes), "NCb": ncb, "Atomic": True, "TallyReset": False}, invariants=["Safe"]),
+        code, out = run_tlc("Approval.tla", cfg_text("Spec", {"Writes": set(writes), "NCb": ncb, "Atomic": True, "TallyReset": False, "Epochs": 1, "StaleTally": False}, invariants=["Safe"]),
                             timeout=900, workers=NCPU, heap="8g")
         if not tlc_ok(code, out):
             raise Inconclusive("the atomic Approval model violates the contract:\n" + out[-2000:])
@@ -84,6 +84,30 @@ def execute(prop, tier, seed, sc, topo, disconnect=False):
     if disconnect:
         d = [dict(x, disconnect=rnd.choice([0, len(x["sched"]) // 2])) for x in scheds if any(x["expires"].values())]
         scheds = rnd.sample(d, min(len(d), 150 if quick else 1500))
+    # second epoch (spec: action Reconnect): the connection is removed at a point where no verdict call is in flight, the
+    # peer connects, binds and writes again with the message counters of the first epoch; the approvals counted before
+    # the teardown must not count for the new write
+    ep, st = gen(["w1"], 2, False, epochs=2)
+    states += st["distinct"]
+    ep = [x for x in ep if x["past"]]
+    some = [x for x in ep if any(n.startswith("v:") for n in x["past"][0]["sched"])]
+    ep = rnd.sample(some, min(len(some), 120 if quick else 1500)) + rnd.sample(ep, min(len(ep), 30 if quick else 500))
+    for x in ep:
+        p1 = x["past"][0]
+        scheds.append({"verdict": p1["verdict"], "expires": p1["expires"], "sched": p1["sched"], "unsafe": False, "disconnect": len(p1["sched"]),
+                       "late": {}, "splittimer": 0, "splitverdict": 0, "otherdisc": -1,
+                       "round2": {"verdict": x["verdict"], "expires": x["expires"], "sched": x["sched"], "unsafe": x["unsafe"], "disconnect": -1,
+                                  "late": {}, "splittimer": 0, "splitverdict": 0, "otherdisc": -1}})
+    # the contract over two epochs (TLC): Safe holds when the teardown forgets the tally, and is violated when it does not
+    code, out = run_tlc("Approval.tla", cfg_text("Spec", {"Writes": {"w1"}, "NCb": 2, "Atomic": True, "TallyReset": False, "Epochs": 2, "StaleTally": False}, invariants=["Safe"]),
+                        timeout=900, workers=NCPU, heap="8g")
+    if not tlc_ok(code, out):
+        raise Inconclusive("the atomic two-epoch Approval model violates the contract:\n" + out[-2000:])
+    states += tlc_stats(out)["distinct"]
+    code, out = run_tlc("Approval.tla", cfg_text("Spec", {"Writes": {"w1"}, "NCb": 2, "Atomic": True, "TallyReset": False, "Epochs": 2, "StaleTally": True}, invariants=["Safe"]),
+                        timeout=900, workers=NCPU, heap="8g")
+    if "is violated" not in out:
+        raise Inconclusive("the two-epoch Approval model is not sensitive to a tally that survives the teardown (vacuous?)")
     open(sc.path("topo.json"), "w").write(topo)
     shards = shard([json.dumps(x) for x in scheds], NCPU)
     files = []
@@ -118,7 +142,7 @@ def execute(prop, tier, seed, sc, topo, disconnect=False):
         seen.add(key)
         viol += 1
         o = x["observed"]
-        path = write_replay(prop, "approval_%d" % viol, {"property": prop, "config": dict({k: o[k] for k in ("verdict", "expires", "sched", "disconnect")}, splittimer=o.get("splittimer", 0), splitverdict=o.get("splitverdict", 0), otherdisc=o.get("otherdisc", -1), late=o.get("late", {})),
+        path = write_replay(prop, "approval_%d" % viol, {"property": prop, "config": o["origin"] if o.get("origin") else dict({k: o[k] for k in ("verdict", "expires", "sched", "disconnect")}, splittimer=o.get("splittimer", 0), splitverdict=o.get("splitverdict", 0), otherdisc=o.get("otherdisc", -1), late=o.get("late", {})),
                             "defects": x["defects"], "observed": {k: o[k] for k in ("outcomes", "presented", "data", "afterdisc", "panic", "realised")},
                             "how": "harness approval-replay"})
         print("VIOLATION property=%s replay=%s" % (prop, path))
